@@ -64,6 +64,12 @@ def hash_contraction_b(inputs, output, size_dict):
     # then sort edges by each's incidence nodes
     canonical_edges = sortedtuple(map(sortedtuple, edges.values()))
 
+    # terms without any indices are invisible to the above, but do change
+    # the contraction (e.g. the number of terms any path has to refer to)
+    scalars = tuple(i for i, term in enumerate(inputs) if len(term) == 0)
+    if scalars:
+        canonical_edges = (canonical_edges, scalars)
+
     return hashlib.sha1(
         pickle.dumps(
             _unique_objects(
